@@ -128,6 +128,8 @@ let parse_dump dump : ddump list =
 
 let find_dev l eui = List.find_opt (fun d -> d.x_eui = eui) l
 
+let rec take k l = if k <= 0 then [] else match l with [] -> [] | x :: t -> x :: take (k - 1) t
+let rec drop k l = if k <= 0 then l else match l with [] -> [] | _ :: t -> drop (k - 1) t
 let frame_fcnt raw = match spec_decode raw with Some g -> Some (int_of_n g.s_fcnt) | None -> None
 
 (* C03: per device and session, the counters of recorded uplinks strictly increase *)
@@ -183,6 +185,15 @@ let judge_c07 (_euis : n list) (steps : step list) : string =
           List.iter (fun dstr ->
             let raw = bytes_of_hex (List.hd (String.split_on_char ':' dstr)) in
             match raw with
+            | b0 :: _ when int_of_n b0 / 32 = 1 && List.length raw = 17 ->
+              (* a join-accept left: the new session starts with downlink counter 0 *)
+              (match st.ev with
+               | Rx (rx, _, _) when List.length rx.rx_raw = 23 ->
+                 let deveui = hex_of_n (le_val (take 8 (drop 9 rx.rx_raw))) in
+                 (match find_dev cur deveui with
+                  | Some d' when d'.x_fdn <> 0 -> verdict := "bad:downlink-counter-not-zero-after-join"
+                  | _ -> ())
+               | _ -> ())
             | b0 :: _ when (int_of_n b0 / 32 = 3 || int_of_n b0 / 32 = 5) ->
               (* keys as stored before the step (the session the frame belongs to) *)
               (match owner_of !prev raw with
@@ -205,8 +216,6 @@ let judge_c07 (_euis : n list) (steps : step list) : string =
   !verdict
 
 (* ---------- C04 / C05: join-requests, judged by the reference device ---------- *)
-let rec take k l = if k <= 0 then [] else match l with [] -> [] | x :: t -> x :: take (k - 1) t
-let rec drop k l = if k <= 0 then l else match l with [] -> [] | _ :: t -> drop (k - 1) t
 
 (* the registered device a 23-byte join-request names, and whether the specification honours it *)
 let spec_join (s : srv) (raw : n list) =
